@@ -56,7 +56,15 @@ func (w *World) GovExec(title string, msgs ...sdk.Msg) bool {
 	if w.Dead || !b.Txs[1].OK() {
 		return false
 	}
-	w.Step(11)
+	// the block in which the voting period ends and the governance end-blocker executes the
+	// messages carries ordinary traffic when the scenario has a generator: users' transactions run
+	// before the end-blockers of the same block, so the executed messages meet whatever per-block
+	// state (snapshots, queued swap requests, transient records) that traffic has left
+	var traffic []*TxRecord
+	if w.GovTraffic != nil {
+		traffic = w.GovTraffic()
+	}
+	w.Step(11, traffic...)
 	if w.Dead {
 		return false
 	}
